@@ -11,7 +11,9 @@ CFG = {'streams': [{'name': 'C09',
  'explanation': 'Theorems: for BOTH interpreters every successful run on a well-formed graph yields a well-formed graph (edges strictly ascending by '
                 'sink = one edge per ordered pair) that extends the given one (old indices, attribute values, edges and edge attributes kept; new '
                 'nodes after the old ones); extension is a preorder (histories); Attributes::add accepts equal values and reports different ones; '
-                're-adding an edge keeps it and its attributes.',
+                're-adding an edge keeps it and its attributes. STATEMENT / RUN level (Proofs/AttrConflict.v): strict_attr_conflict_fails, strict_edge_attr_conflict_fails (an `attr` statement whose value differs from the '
+                'value the node / edge already has returns exactly Err DuplicateAttribute), lazy_attr_conflict_fails, lazy_edge_attr_conflict_fails (evaluation of the deferred statement fails with DuplicateAttribute in the statement context, also when the old value was on the graph given to execute_into), '
+                'the four _equal_value_accepted theorems (equal value: Ok, graph unchanged), strict_run_failing_statement_fails_run / strict_run_attr_conflict_fails / lazy_run_failing_attr_statement_fails_run (the failing top-level / deferred statement makes the RUN return Err with that root cause).',
  'partial': [],
  'assumptions': ['tree-sitter queries are an external: raw matches are recorded by calling QueryCursor::matches directly on the stanza queries and '
                  'on the merged file query',
